@@ -63,7 +63,9 @@ Ret == /\ pc = "ret" /\ pc' = "idle"
        /\ c' = Feed(c, <<[ev |-> "ret", w |-> w, err |-> FALSE, versions |-> Cardinality(DOMAIN dirs)]>>)
        /\ UNCHANGED <<sets, dirs, target, new, w, todo, prev, crashes>>
 
-Crash == /\ pc \notin {"idle", "ret"} /\ crashes < MaxCrashes
+\* the process can also die after the last filesystem step, before Write returns (pc = "ret"): nothing differs on disk, but
+\* the in-memory `prev` is lost like after any other crash
+Crash == /\ pc # "idle" /\ crashes < MaxCrashes
          /\ pc' = "idle" /\ prev' = 0 /\ crashes' = crashes + 1 /\ todo' = {}
          /\ c' = Feed(c, <<[ev |-> "crash"]>>)
          /\ UNCHANGED <<sets, dirs, target, new, w>>
